@@ -148,4 +148,9 @@ def offers : Ty → Op → Bool
   | .ipv, _ => true
   | ty, op => supports ty op
 
+/-- "smallest unsigned integer type that can represent values in the range [0, N]" (the documented contract of
+    `smallest_size_t`), as a width among 8/16/32/64 -/
+def minBits (n : Nat) : Nat :=
+  if n < 2 ^ 8 then 8 else if n < 2 ^ 16 then 16 else if n < 2 ^ 32 then 32 else 64
+
 end Tetl.C01.Spec
